@@ -14,6 +14,15 @@ var Rating = gocvss30.Rating
 
 const Header = "CVSS:3.0/"
 
+
+type ErrInvalidMetric = gocvss30.ErrInvalidMetric
+
+var ErrInvalidMetricValue = gocvss30.ErrInvalidMetricValue
+var ErrTooShortVector = gocvss30.ErrTooShortVector
+var ErrInvalidCVSSHeader = gocvss30.ErrInvalidCVSSHeader
+type ErrMissing = gocvss30.ErrMissing
+type ErrDefinedN = gocvss30.ErrDefinedN
+
 type metric struct {
 	abv  string
 	vals []string
